@@ -182,10 +182,8 @@ func (t1 *Type1Font) applyEncodingDifferences(diffs core.Array) error {
 			// This is a starting code
 			code = int(v)
 		case core.Name:
-			// This is a glyph name mapped to current code
-			// We would need a glyph name to Unicode mapping table here
-			// For now, just increment the code
-			// TODO: Implement proper glyph name to Unicode mapping
+			// This is a glyph name mapped to the current code
+			t1.Font.setDifference(code, string(v))
 			code++
 		default:
 			return fmt.Errorf("invalid differences array item: %T", item)
